@@ -1,5 +1,6 @@
 """C14 — float/integer casts (f32, f64 <-> BUint/BInt).  Floats travel as bit patterns."""
 from .common import *
+import os
 from .ops_c14 import OPS
 
 PROP, BIN, RUNMOD, RUNFN = "C14", "c14", "RunC14", "run_C14"
@@ -115,10 +116,56 @@ def emit_float(out, op_prefix, fmt, w, n, f, prim):
         out.append("%s.from_%s_matches_prim %d %d %s" % (op_prefix, fmt, w, n, tokZ(f)))
 
 
+SWEEP = True      # thorough tier: the binary is built with the cargo feature `sweep` (tools/ops/C14.ops: @sweep)
+
+
+def sweep_cases(rng):
+    """EVERY width 8, 16, ..., 8192 bits (u8 digits, N = 1..=1024): integers at the width's own boundaries (MAX, 2^(bits-1),
+    ties and all-ones mantissas at the top of the width, the round-to-infinity threshold when the width reaches it) and floats
+    at the saturation boundary of that width (2^bits, 2^(bits-1), one ulp either side, both signs) - the places where a
+    width-dependent shortcut in the cast code would go wrong."""
+    out = []
+    std = {n for (w, n) in CONFIGS_ALL if w == 8}
+    for n in range(1, 1025):
+        if n in std:
+            continue
+        bits = 8 * n
+        M = 1 << bits
+        for fmt in ("f32", "f64"):
+            fb, p, emax = FMT[fmt]
+            fm = (1 << (p - 1)) - 1
+            ivs = [M - 1, M >> 1, (M >> 1) - 1, (M >> 1) + 1, 1 << (bits - 2) if bits > 2 else 1]
+            if bits > p + 2:
+                sh = bits - p
+                top = ((1 << p) - 1) << sh                 # all-ones mantissa at the top of the width
+                ivs += [top, top | (1 << (sh - 1)), top | ((1 << (sh - 1)) - 1), (1 << (bits - 1)) | (1 << (sh - 1)),
+                        (1 << (bits - 1)) | (1 << (sh - 1)) | 1, (1 << (bits - 1)) | (3 << (sh - 1)), rng.bits(bits) | (1 << (bits - 1))]
+            if bits >= emax:
+                T = (1 << emax) - (1 << (emax - p - 1))
+                ivs += [T, T - 1, (1 << emax) - (1 << (emax - p))]
+            for v in ivs:
+                out.append("U.to_%s 8 %d %s" % (fmt, n, tokV(v % M, 8, n)))
+                out.append("I.to_%s 8 %d %s" % (fmt, n, tokV((M - v) % M, 8, n)))
+            for e, fr in ((bits, 0), (bits - 1, fm), (bits - 1, 0), (bits - 1, 1), (bits - 2, fm), (bits - 2, 0), (bits + 1, 0)):
+                if -(emax - 2) <= e <= emax - 1:
+                    for s_ in (0, 1):
+                        f = enc(fmt, s_, e, fr)
+                        out.append("U.from_%s 8 %d %s" % (fmt, n, tokZ(f)))
+                        out.append("I.from_%s 8 %d %s" % (fmt, n, tokZ(f)))
+            for f in (raw(fmt, 0, 2 * emax - 1, 0), raw(fmt, 1, 2 * emax - 1, 0), raw(fmt, 0, 2 * emax - 2, fm)):   # +-inf, MAX float
+                out.append("U.from_%s 8 %d %s" % (fmt, n, tokZ(f)))
+                out.append("I.from_%s 8 %d %s" % (fmt, n, tokZ(f)))
+    return out
+
+
 def gen(rng, tier):
     thorough = tier == "thorough"
     configs = CONFIGS_ALL if thorough else CONFIGS_QUICK
     out = []
+    if thorough:
+        out += sweep_cases(rng)
+        if os.environ.get("VERIF_ONLY_SWEEP") == "1":       # development knob: the width sweep alone
+            return out
     for (w, n) in configs:
         bits = w * n
         M = 1 << bits
